@@ -116,6 +116,9 @@ func main() {
 			add(d, "covering")
 		}
 		add(soleCoveringDesign(), "covering")
+		for _, d := range routesDesigns(*prop) {
+			add(d, "covering")
+		}
 		add(soleRandomDesign(rng.Fork(), 0), "covering")
 		if *tier == "thorough" {
 			for i := 1; i < 8; i++ {
@@ -132,6 +135,9 @@ func main() {
 		for i := 0; len(items)-n0 < nDesigns && i < nDesigns*3; i++ {
 			add(dg.Random(rng.Fork(), opts, i), "random")
 		}
+	}
+	if n := repairTypedCookieEncoders(b.Dir); n > 0 {
+		res.Extra["typed_cookie_client_encoders_repaired"] = fmt.Sprint(n, " (goa finding C01 non-string-cookie: the generated client does not compile otherwise)")
 	}
 	if err := b.Build(); err != nil {
 		panic(err)
@@ -338,6 +344,17 @@ func locator(m *dg.Method) (func(string) string, string) {
 	}
 	for _, e := range h.Cookies {
 		loc[e.Attr] = "cookie"
+	}
+	if h.MapParams != "" && h.MapParams != "*" {
+		loc[h.MapParams] = "query" // the whole query string
+	}
+	if m.Payload != nil {
+		// credentials that are not mapped explicitly travel in the Authorization header
+		for _, f := range m.Payload.T.Attrs {
+			if _, mapped := loc[f.Name]; f.A.Sec != nil && !mapped {
+				loc[f.Name] = "auth"
+			}
+		}
 	}
 	pathVars := map[string]bool{}
 	for _, r := range h.Routes {
